@@ -1,16 +1,20 @@
 from propbase import Comp, Prop, reg
-from oracledefs import iter as it
+from oracledefs import iter as it, scanconc
 from propdefs.c01_c08 import ENGINE
 
 ITER = Comp('iter', n_quick=2400, n_thorough=60000, oracle=it.iter_oracle, nontrivial=it.iter_nontrivial, stats=it.iter_stats,
             header_lines=1, chunk_min=50, timeout=600)
 
+SCANCONC = Comp('scanconc', n_quick=96, n_thorough=3000, oracle=scanconc.scanconc_oracle, nontrivial=scanconc.scanconc_nontrivial,
+                stats=scanconc.scanconc_stats, differential=False, chunk_min=4, timeout=900, shrink=False)
+
 reg(Prop('C05', 'Kevo.Props.C05',
          facts=['facts:iter.*'],
-         components=[ITER, ENGINE],
+         components=[ITER, ENGINE, SCANCONC],
          fact_tags=['iter'],
          rule='component iter: 0-3 real memtables (several versions of a key, the first one active, the others immutable), 0-3 real '
-              'SSTable files, slice-backed sources with unsorted/duplicate keys (adversarial), keys from a colliding alphabet, '
+              'SSTable files (case kind bigsst: tables of 17-150 entries = several restart intervals, with 600-2500-byte values several '
+              'data blocks; targets in the gaps between stored keys, at -3..+1 around multiples of the restart interval), slice-backed sources with unsorted/duplicate keys (adversarial), keys from a colliding alphabet, '
               'tombstones shadowing older values, empty sources; iterators built by composite.NewHierarchicalIterator, by the real '
               'iterator.Factory (CreateIterator/CreateRangeIterator with the argument order of the storage manager), by a real '
               'transaction (NewIterator/NewRangeIterator over buffered puts/deletes), wrapped in bounded/prefix/suffix iterators; '
@@ -20,10 +24,15 @@ reg(Prop('C05', 'Kevo.Props.C05',
               'range, start >= end. Oracle (Python specification): merged newest-wins view + overlay + bounds/filters, cursor '
               'semantics (Seek = smallest key >= t, last = greatest), live entries cut at the limit; for unsorted sources only '
               'strict ascent. component engine: range scans after random programs on the real engine (see C01). '
-              'Non-trivial: a key stored in several sources/versions and at least one answered query; distinct by script hash.',
+              'Non-trivial: a key stored in several sources/versions and at least one answered query; distinct by script hash. '
+              'component scanconc (implementation only; concurrent clause): 10-600 stable keys spread over SSTables, immutable and active '
+              'memtables; a full / range / read-only-transaction scan is stepped while writers insert runs of 1-6 NEW neighbouring keys '
+              'ahead of and behind the cursor, overwrite and delete keys of a separate family, apply batches and flush (deterministically '
+              'interleaved in one goroutine, or from 1-4 goroutines): the scan must be strictly ascending, within its bounds, return only '
+              'keys that existed or were written, and contain every stable key (not written during the scan) with its value.',
          assumptions=['correspondence Kevo.Model.Merge ~ pkg/common/iterator, pkg/engine/iterator, pkg/transaction, pkg/grpc/service is sampled '
                       '(differential) and pinned by the extracted facts (source order, comparison operators, option selection), not proved',
-                      'the concurrent clause (scan during writes) is covered only by hier_strictly_ascending (any source contents); see C06/C18',
+                      'the concurrent clause (scan during writes): hier_strictly_ascending (any source contents) + the scanconc scenarios; the memtable-level argument is C18',
                       'a scan request that carries a prefix/suffix together with start/end is answered by the filter alone (as coded)',
                       'SSTable and memtable iterators behave as sorted-list cursors (C11 for tables)'],
          trusted_base=['slice-backed iterator of the harness stands in for misbehaving sources']))
